@@ -65,7 +65,9 @@ def expected(fam):
     """from the abstract model: {entity: (bases, init params)}, {type: description}"""
     ents = {}
     for e in fam.entities:
-        ents[e.name] = {'bases': list(e.supers), 'init': [a.name for _, a, redecl in fam.p21_attrs(e.name)]}
+        anc = [fam.tmap()[1][n] for n in fam.ancestors_ordered(e.name)] if hasattr(fam, 'ancestors_ordered') else [e]
+        ents[e.name] = {'bases': list(e.supers), 'init': [a.name for _, a, redecl in fam.p21_attrs(e.name)],
+                        'inverse_names': [v.name for x in anc for v in x.inverse], 'derived_names': [d.name for x in anc for d in x.derived]}
     types = {}
     for t in fam.types:
         b = t.body
@@ -191,7 +193,17 @@ def judge(name, text, schema_names, exp_ents, exp_types, res):
         if [g.rstrip('_') for g in got] == [w.rstrip('_') for w in want]:
             got = want
         if got != want and got != e['init']:
-            cls = 'order' if sorted(got) == sorted(want) else ('count' if len(got) != len(want) else 'names')
+            # what exactly is wrong decides the finding: repeated names (diamond paths), names that are not explicit attributes at all, missing ones
+            extra = [g for g in got if g not in want and g.rstrip('_') not in [w.rstrip('_') for w in want]]
+            missing = [w for w in want if w not in got]
+            if sorted(got) == sorted(want):
+                cls = 'order'
+            elif not extra and not missing and len(got) > len(want):
+                cls = 'duplicates'
+            elif extra:
+                cls = 'extra:' + ('inverse' if any(x in e.get('inverse_names', ()) for x in extra) else ('derived' if any(x in e.get('derived_names', ()) for x in extra) else 'other'))
+            else:
+                cls = 'missing'
             out.append(('constructor-parameters/%s' % cls, 'class %s: __init__(%s), Part 21 order of the explicit attributes is (%s)' % (en, ', '.join(c['init']), ', '.join(e['init']))))
     for tn, t in (exp_types or {}).items():
         tn0 = tn
@@ -250,11 +262,48 @@ def family_N():
     return out
 
 
+def family_F(tier):
+    """feature interactions: INVERSE / DERIVE attributes declared in a (direct, transitive, second) supertype of an entity with own attributes;
+    chains of defined types of length 3-4 under every permutation of their names (the generator orders classes by walking a hash table)"""
+    import itertools
+    S, N, A = smodel.Simple, smodel.Named, smodel.Aggr
+    out = []
+    I, St = S('INTEGER'), S('STRING')
+    out.append(smodel.Schema('n_inv_super', [], [
+        smodel.Entity('ctx', [smodel.Attr('ident', I), smodel.Attr('kind', St)], inverse=[smodel.Inverse('items', 'item', 'c', 'SET', 0, None)]),
+        smodel.Entity('item', [smodel.Attr('c', N('ctx')), smodel.Attr('nm', St)]),
+        smodel.Entity('gctx', [smodel.Attr('dimension', I)], supers=['ctx']),
+        smodel.Entity('ggctx', [smodel.Attr('units', St)], supers=['gctx']),
+        smodel.Entity('other', [smodel.Attr('o1', I)], inverse=[smodel.Inverse('single', 'item2', 'o')]),
+        smodel.Entity('item2', [smodel.Attr('o', N('other'))]),
+        smodel.Entity('both', [smodel.Attr('b1', St)], supers=['gctx', 'other']),
+        smodel.Entity('subitem', [smodel.Attr('extra', I)], supers=['item']),
+    ]))
+    out.append(smodel.Schema('n_der_super', [], [
+        smodel.Entity('box', [smodel.Attr('w', S('REAL')), smodel.Attr('h', S('REAL'))], derived=[smodel.Derived('area', S('REAL'), 'w * h')]),
+        smodel.Entity('cube', [smodel.Attr('d', S('REAL'))], supers=['box'], derived=[smodel.Derived('vol', S('REAL'), 'w * h * d')]),
+        smodel.Entity('lcube', [smodel.Attr('label', St)], supers=['cube']),
+    ]))
+    triples = [('cnt', 'small_cnt', 'tiny_cnt'), ('label', 'short_label', 'tag'), ('t1', 't2', 't3'), ('aa', 'bb', 'cc'), ('length_measure', 'positive_length_measure', 'tolerance_length_measure')]
+    quads = [('q1', 'q2', 'q3', 'q4'), ('alpha', 'beta', 'gamma', 'delta')]
+    k = 0
+    for names in triples + (quads if tier == 'thorough' else [quads[0]]):
+        perms = list(itertools.permutations(names))
+        if tier == 'quick' and len(names) == 4:
+            perms = perms[::5]
+        for perm in perms:
+            types = [smodel.TypeDecl(perm[0], I)] + [smodel.TypeDecl(perm[i], N(perm[i - 1])) for i in range(1, len(perm))]
+            for order in (types, list(reversed(types))):
+                out.append(smodel.Schema('n_chain_%d' % k, list(order), [smodel.Entity('uses', [smodel.Attr('v', N(perm[-1])), smodel.Attr('u', N(perm[0]))])]))
+                k += 1
+    return out
+
+
 def programs(tier):
     progs = []
     fk = smodel.family_K('fam_k', pairs=[('inte', 'stri'), ('ref', 'list_int'), ('enum', 'seldef')])
     fi = smodel.family_I('fam_i')
-    for fam in [fk, fi] + family_N():
+    for fam in [fk, fi] + family_N() + family_F(tier):
         ee, tt = expected(fam)
         progs.append((fam.name, fam.express(), [fam.name], ee, tt))
     # unpacked: every entity of family I with the declarations it needs is already small; K kinds one by one (thorough)
